@@ -428,6 +428,34 @@ def every_line_counts(R, rep, rule="R10"):
         rep.unresolved(rule, "transaction-vectors", f"only {n} calls on a Vec of transactions found in the matcher / calculator (sort, iteration and push expected)")
 
 
+def frontends_hand_over_everything(F, rep, rule, crates=("cgt_mcp", "cgt_cli", "cgt_wasm")):
+    """the front-ends hand the calculation EVERY parsed line: in the CLI, the MCP server and the wasm exports no call thins a vector
+    of transactions (`retain`, `dedup`, `truncate`, `drain`, …) between parsing and `calculate`. The year filter belongs to the
+    calculator, after matching — a front-end that cuts the ledger at the end of the requested tax year hides the 30-day
+    re-acquisition of a March sale, and its figures differ from every other front-end's (seeded change C17-s8)."""
+    n = 0
+    bad = []
+    for cr in crates:
+        for b in F.user_bodies(cr):
+            for i, t in b.calls():
+                m = parse_callee(t["callee"])
+                aty = t.get("aty") or []
+                if not aty or not re.search(r"Vec(Deque)?<(&)?(cgt_core::models::Transaction|cgt_core::models::GbpTransaction|cgt_core::\S*Transaction)", aty[0]):
+                    continue
+                if "alloc::vec::Vec" not in t["callee"] and "VecDeque" not in t["callee"] and "slice" not in t["callee"]:
+                    continue
+                n += 1
+                if m[2] in THINNING:
+                    bad.append((b, t, m[2]))
+    for b, t, name in bad:
+        rep.ob(rule, f"{b.short}:{name}", False, f"`{b.short}` calls `{name}` on the parsed transactions before the calculation: the matcher never sees the "
+               "dropped lines (a 30-day re-acquisition after the cut, an earlier purchase), so this front-end's legs and costs differ from the others'",
+               b.loc(t["sp"]), key=f"{rule}:{b.short}:thins-transactions:{name}")
+    rep.ob(rule, "frontends:transactions-never-thinned", not bad, f"{n} calls on transaction vectors in the front-ends, none removes elements" if not bad else
+           f"{len(bad)} calls remove lines from the parsed transactions in a front-end", "", key=f"{rule}:frontends:never-thinned")
+    rep.count(f"{rule}_frontend_transaction_vector_calls", n)
+
+
 def _touches_ratio(R, cb):
     """the helper reads a Split/Unsplit ratio (to scale a cumulative ratio in place or to return the scaled value)"""
     tb = R.terms(cb, 0)
